@@ -42,7 +42,7 @@ func (c16) Cases(tier string) int {
 func (c16) Describe() core.Info {
 	return core.Info{
 		Level: "exploration",
-		Rule: "command histories of 3-25 commands over a pool of 13 small source files (facts only, declarations for predicates that another file defines without one, rules over other files' predicates, declarations with bounds, temporal facts and rules, a file with a syntax error, a file redefining another file's predicate) and 28 clause texts (valid facts and rules, rules over loaded predicates, negation, parse errors, analysis errors, redefinitions, declarations); loads of one and several files, the same file twice, pops on empty. After EVERY command the interpreter under test is compared with a fresh interpreter that replays only the live fragments in order (model: load discards the interactive fragment then pushes iff it succeeds; define replaces the interactive fragment iff it succeeds; pop drops the interactive fragment if there is one, else the top loaded fragment): success/failure of the command itself, error status of ParseQuery for each of 20 predicate names, and the multiset of query results. Non-trivial: a pop after >= 2 pushes or a failed define after a successful one; distinct by command sequence.",
+		Rule: "command histories of 3-25 commands over a pool of 16 small source files (facts only, declarations for predicates that another file defines without one, rules over other files' predicates, declarations with bounds, temporal facts and rules, an extensional temporal predicate declared by one file that receives facts from other files and from interactive definitions, a file with a syntax error, a file redefining another file's predicate) and 30 clause texts (valid facts and rules, rules over loaded predicates, negation, parse errors, analysis errors, redefinitions, declarations); loads of one and several files, the same file twice, pops on empty. After EVERY command the interpreter under test is compared with a fresh interpreter that replays only the live fragments in order (model: load discards the interactive fragment then pushes iff it succeeds; define replaces the interactive fragment iff it succeeds; pop drops the interactive fragment if there is one, else the top loaded fragment): success/failure of the command itself, error status of ParseQuery for each of 22 predicate names, and the multiset of query results. Non-trivial: a pop after >= 2 pushes or a failed define after a successful one; distinct by command sequence.",
 		Assumptions: []string{"histories are cut at the first command whose *evaluation* fails (state afterwards is unspecified)"},
 	}
 }
@@ -62,18 +62,23 @@ var c16Files = map[string]string{
 	"adecl.mg":  "Decl a(X) bound [/number].\nr(X) :- a(X).\n",
 	"adecl2.mg": "Decl a(X) bound [/number].\na(8).\n",
 	"cdecl.mg":  "Decl c(X) bound [/number].\nDecl b(X) bound [/number].\n",
+	// an extensional temporal predicate that is declared by one file and receives facts from others
+	"ev.mg":  "Decl ev(X) temporal descr [extensional()] bound [/name].\nev(/a)@[2024-01-01T00:00:00, 2024-01-02T00:00:00].\n",
+	"ev2.mg": "ev(/b)@[2024-02-01T00:00:00, 2024-02-02T00:00:00].\n",
+	"ev3.mg": "ev(/d)@[2024-04-01T00:00:00, 2024-04-02T00:00:00].\nevu(X)@[S, E] :- ev(X)@[S, E].\n",
 }
 
-var c16FileNames = []string{"a.mg", "b.mg", "c.mg", "d.mg", "e.mg", "t.mg", "u.mg", "n.mg", "bad.mg", "conflict.mg", "adecl.mg", "adecl2.mg", "cdecl.mg"}
+var c16FileNames = []string{"a.mg", "b.mg", "c.mg", "d.mg", "e.mg", "t.mg", "u.mg", "n.mg", "bad.mg", "conflict.mg", "adecl.mg", "adecl2.mg", "cdecl.mg", "ev.mg", "ev2.mg", "ev3.mg"}
 
 var c16Clauses = []string{
 	"f(1).", "f(2).", "g(X) :- f(X).", "h(X) :- a(X).", "k(X) :- b(X), !c(X).", "f(", "z(X) :- y(X).", "w(X) :- f(Y).",
 	"a(7).", "Decl m(X) bound [/number].", "m(1).", "m(\"s\").", "g(X) :- c(X).", "h(X) :- cc(X), a(X).", "f(3). f(4).", "q(X) :- d(X).",
 	"q(X) :- u(X)@[S, E].", "c(5).", "g(X) :- g(X).", "k(1).", "h(X) :- f(X), X != 1.", "e(5).",
 	"Decl a(X) bound [/number]. zz(X) :- a(X).", "Decl a(X) bound [/number]. zz(X) :- nope(X).", "Decl c(X) bound [/number]. zc(X) :- c(X).", "Decl f(X) bound [/number].", "Decl b(X) bound [/number].", "zz(X) :- a(X).",
+	"ev(/c)@[2024-03-01T00:00:00, 2024-03-02T00:00:00].", "t(3)@[2024-03-01, 2024-03-02].",
 }
 
-var c16Preds = []string{"a", "b", "c", "cc", "d", "e", "t", "u", "n", "f", "g", "h", "k", "m", "q", "z", "w", "r", "zz", "zc"}
+var c16Preds = []string{"a", "b", "c", "cc", "d", "e", "t", "u", "n", "f", "g", "h", "k", "m", "q", "z", "w", "r", "zz", "zc", "ev", "evu"}
 
 func (c16) Gen(r *rand.Rand, tier string, i int) any {
 	n := 3 + r.Intn(23)
@@ -83,7 +88,7 @@ func (c16) Gen(r *rand.Rand, tier string, i int) any {
 		case x < 35:
 			f := c16FileNames[r.Intn(len(c16FileNames))]
 			if r.Intn(3) == 0 {
-				f = []string{"a.mg", "b.mg", "c.mg", "t.mg"}[r.Intn(4)] // frequently needed bases
+				f = []string{"a.mg", "b.mg", "c.mg", "t.mg", "ev.mg", "ev.mg"}[r.Intn(6)] // frequently needed bases
 			}
 			if r.Intn(6) == 0 {
 				f += "," + c16FileNames[r.Intn(len(c16FileNames))]
